@@ -6,65 +6,15 @@ exactly what they were before saving (the generator stamp in meta.xml is the onl
 and the bytes written for content.xml by a plain save are the same whether or not a pretty save came
 first."""
 import symsupport as S  # noqa: F401
-from odfdo.container import Container
 from odfdo.document import Document
 from vlib.hk import done
 
-NS = ('xmlns:office="urn:oasis:names:tc:opendocument:xmlns:office:1.0" xmlns:text="urn:oasis:names:tc:opendocument:xmlns:text:1.0" '
-      'xmlns:style="urn:oasis:names:tc:opendocument:xmlns:style:1.0" xmlns:meta="urn:oasis:names:tc:opendocument:xmlns:meta:1.0" '
-      'xmlns:manifest="urn:oasis:names:tc:opendocument:xmlns:manifest:1.0" xmlns:draw="urn:oasis:names:tc:opendocument:xmlns:drawing:1.0"')
+from memdoc import NS, MemContainer
 
 
 def content_xml(t0, t1):
     return ('<office:document-content %s><office:automatic-styles/><office:body><office:text><text:p>%s<text:s/><text:span>%s</text:span>'
             '<draw:frame/><text:span>b</text:span></text:p></office:text></office:body></office:document-content>' % (NS, t0, t1)).encode()
-
-
-PARTS = {
-    "mimetype": b"application/vnd.oasis.opendocument.text",
-    "styles.xml": ('<office:document-styles %s><office:styles><style:style style:name="S"/></office:styles></office:document-styles>' % NS).encode(),
-    "meta.xml": ('<office:document-meta %s><office:meta><meta:generator>x</meta:generator></office:meta></office:document-meta>' % NS).encode(),
-    "settings.xml": ('<office:document-settings %s/>' % NS).encode(),
-    "META-INF/manifest.xml": ('<manifest:manifest %s><manifest:file-entry manifest:full-path="/" manifest:media-type="application/vnd.oasis.opendocument.text"/></manifest:manifest>' % NS).encode(),
-}
-
-
-class MemContainer(Container):
-    def __init__(self, content):
-        self._p = dict(PARTS)
-        self._p["content.xml"] = content
-        self.saved = []
-        self.path = None
-
-    def get_part(self, path):
-        v = self._p.get(path)
-        if v is None:
-            raise ValueError("no part " + path)
-        return v
-
-    def set_part(self, path, data):
-        self._p[path] = data
-
-    def del_part(self, path):
-        self._p[path] = None
-
-    def get_parts(self):
-        return list(self._p.keys())
-
-    @property
-    def parts(self):
-        return list(self._p.keys())
-
-    @property
-    def mimetype(self):
-        return self._p["mimetype"].decode()
-
-    @property
-    def default_manifest_rdf(self):
-        return "<rdf/>"
-
-    def save(self, target=None, packaging="zip", backup=False, pretty=False):
-        self.saved.append(dict(self._p))
 
 
 TEXTS = ["", "a", " a "]
@@ -77,13 +27,13 @@ def save_neutral(k0: int, k1: int, touch_content: bool, touch_styles: bool, pret
     """
     # (the part bytes must be concrete for the XML parser: the texts are chosen by symbolic indexes)
     t0, t1 = TEXTS[k0], TEXTS[k1]
-    c = MemContainer(content_xml(t0, t1))
+    c = MemContainer({"content.xml": content_xml(t0, t1)})
     doc = Document(c)
     if touch_content:
         doc.body  # noqa: B018 - loads content.xml into the part cache before saving
     if touch_styles:
         doc.styles.root  # noqa: B018
-    ref_doc = Document(MemContainer(content_xml(t0, t1)))
+    ref_doc = Document(MemContainer({"content.xml": content_xml(t0, t1)}))
     ref_doc.save(pretty=False)
     plain_reference = ref_doc.container.saved[-1]["content.xml"]
     doc.save(pretty=pretty_first)
